@@ -1,5 +1,5 @@
 (* compiler.Passes.Process: apply passes left to right, stop at the first error. *)
-From Cog Require Export Model.Passes Model.Filter.
+From Cog Require Export Model.Passes Model.Filter Model.PassesChain.
 Local Open Scope list_scope.
 
 Definition run_pass (p : pass) (ss : schemas) : res schemas :=
@@ -27,6 +27,20 @@ Definition run_pass (p : pass) (ss : schemas) : res schemas :=
   | PInferEntrypoint => Ok (infer_entrypoint ss)
   | PNameAnonymousStruct pkg obj fld as_ => Ok (name_anonymous_struct pkg obj fld as_ ss)
   | PFilterSchemas allowed => filter_schemas allowed ss
+  | PAnonymousStructsToNamed => Ok (anonymous_structs_to_named ss)
+  | PNotRequiredFieldAsNullableType => Ok (not_required_field_as_nullable_type ss)
+  | PDisjunctionWithNullToOptional => disjunction_with_null_to_optional ss
+  | PAnonymousEnumToExplicitType => Ok (anonymous_enum_to_explicit_type ss)
+  | PPrefixEnumValues => prefix_enum_values ss
+  | PSanitizeEnumMemberNames => sanitize_enum_member_names ss
+  | PRenameNumericEnumValues => Ok (rename_numeric_enum_values ss)
+  | PDisjunctionWithConstantToDefault => disjunction_with_constant_to_default ss
+  | PDisjunctionOfConstantsToEnum => disjunction_of_constants_to_enum ss
+  | PFlattenDisjunctions => flatten_disjunctions ss
+  | PDisjunctionOfAnonymousStructsToExplicit => disjunction_of_anonymous_structs_to_explicit ss
+  | PDisjunctionInferMapping => disjunction_infer_mapping ss
+  | PUndiscriminatedDisjunctionToAny => undiscriminated_disjunction_to_any ss
+  | PDisjunctionToType => disjunction_to_type ss
   | _ => Err "UNMODELLED"
   end.
 
@@ -37,7 +51,12 @@ Definition modelled (p : pass) : bool :=
   | PFieldsSetRequired _ | PFieldsSetNotRequired _ | PFieldsSetDefault _ | PReplaceReference _ _ _ _
   | PConstantToEnum _ | PTrimEnumValues | PHintObject _ _ _ | PSchemaSetIdentifier _ _
   | PSchemaSetEntrypoint _ _ | PPrefixObjectNames _ | PAppendCommentObjects _ | PUnspec
-  | PInferEntrypoint | PNameAnonymousStruct _ _ _ _ | PFilterSchemas _ => true
+  | PInferEntrypoint | PNameAnonymousStruct _ _ _ _ | PFilterSchemas _
+  | PAnonymousStructsToNamed | PNotRequiredFieldAsNullableType | PDisjunctionWithNullToOptional
+  | PAnonymousEnumToExplicitType | PPrefixEnumValues | PSanitizeEnumMemberNames
+  | PRenameNumericEnumValues | PDisjunctionWithConstantToDefault
+  | PDisjunctionOfConstantsToEnum | PFlattenDisjunctions | PDisjunctionOfAnonymousStructsToExplicit
+  | PDisjunctionInferMapping | PUndiscriminatedDisjunctionToAny | PDisjunctionToType => true
   | _ => false
   end.
 
